@@ -137,6 +137,10 @@ proposed repair uses `to_proper()` (offset subtracted), `proper := true`. -/
 structure Cfg where
   proper : Bool := false
 
+/-- The code as it stands in /repo (what the driver predicts).  Set `proper :=
+true` here once the repair of `topology/sprs.rs` is committed. -/
+def Cfg.current : Cfg := { proper := false }
+
 /-- `&indices[*start..*end]` / `&data[*start..*end]` in the specialisation;
 `none` = slice-index panic. -/
 def Csr.specRow? (cfg : Cfg) (m : Csr) (v : Nat) : Option Row :=
